@@ -18,6 +18,15 @@ def tlc_cmd(module, cfg, workers, metadir, extra=(), xss="256m", heap=None):
 
 _STATS = re.compile(r"(\d+) states generated, (\d+) distinct states found")
 
+def _unlimit():
+    "the JVM must not inherit the harness's soft address-space limit"
+    try:
+        import resource
+        hard = resource.getrlimit(resource.RLIMIT_AS)[1]
+        resource.setrlimit(resource.RLIMIT_AS, (hard, hard))
+    except Exception:
+        pass
+
 def run_tlc(module, cfg, workers=4, env=None, timeout=3600, extra=(), scratch=None, heap=None):
     """run TLC in SPEC; returns (stdout, stats). Raises MachineryError on a TLC-level failure."""
     metadir = tempfile.mkdtemp(prefix="tlcmeta_", dir=scratch)
@@ -27,7 +36,7 @@ def run_tlc(module, cfg, workers=4, env=None, timeout=3600, extra=(), scratch=No
     t0 = time.time()
     try:
         p = subprocess.run(tlc_cmd(module, cfg, workers, metadir, extra, heap=heap), cwd=SPEC, env=e,
-                           stdout=subprocess.PIPE, stderr=subprocess.STDOUT, timeout=timeout, text=True)
+                           stdout=subprocess.PIPE, stderr=subprocess.STDOUT, timeout=timeout, text=True, preexec_fn=_unlimit)
     except subprocess.TimeoutExpired:
         raise MachineryError("TLC timed out on %s" % module)
     finally:
@@ -54,7 +63,7 @@ def parse_printed_json(out):
                     raise MachineryError("unparsable verdict line: %s" % line[:200])
     return res
 
-def validate_shard(path, workers=2, timeout=3600, scratch=None, max_retries=25):
+def validate_shard(path, workers=2, timeout=3600, scratch=None, max_retries=25, module="Trace"):
     """validate one shard. A TLC evaluation error (a typing slip in the spec on some case) aborts the JVM:
     the offending case or session is identified from the error trace, recorded as a 'spec-error' verdict
     (machinery failure, never a VIOLATION) and the shard is re-run for what is still undecided."""
@@ -64,7 +73,7 @@ def validate_shard(path, workers=2, timeout=3600, scratch=None, max_retries=25):
     doc = None
     try:
         for attempt in range(max_retries + 1):
-            out, stats = run_tlc("Trace.tla", "Trace.cfg", workers=workers, env={"TRACE_FILE": cur}, timeout=timeout, scratch=scratch)
+            out, stats = run_tlc(module + ".tla", module + ".cfg", workers=workers, env={"TRACE_FILE": cur}, timeout=timeout, scratch=scratch)
             for k in ("generated", "distinct", "wall_s"):
                 total[k] += stats[k]
             for v in parse_printed_json(out):
@@ -83,12 +92,12 @@ def validate_shard(path, workers=2, timeout=3600, scratch=None, max_retries=25):
             msg = re.search(r"The exception was a [^\n]*\n: ([^\n]*(?:\n[^\n]*){0,2})", out)
             why = (msg.group(1) if msg else "TLC evaluation error")[:300]
             verdicts[bad["id"]] = {"id": bad["id"], "st": "spec-error", "at": 0, "why": why}
-            if ci <= nc:
+            if ci <= nc and module == "Trace":
                 for x in doc["sessions"]:
                     if ci in x["cs"]:
                         verdicts[x["id"]] = {"id": x["id"], "st": "spec-error", "at": 0, "why": "member call: " + why}
             doc["done"] = sorted(verdicts)
-            if len(verdicts) >= nc + len(doc["sessions"]):
+            if len(verdicts) >= nc + (len(doc["sessions"]) if module == "Trace" else 0):
                 break
             cur = path + ".retry"
             with open(cur, "w") as f:
